@@ -29,9 +29,11 @@ CLAIMS = {
          "the ADMM loop is stated for the scalar form."),
  'C03': ("Proof of: exact symmetry of every re-inflated matrix (cell-wise, for all n), exactness of the floor filter (comparisons only), finite "
          "log-determinant at the three sites (slogdet; np.linalg.det is modelled with its IEEE underflow clause, which is what refuted the "
-         "original log(det(.)) code), per-eigenvalue positivity over the reals.", "4/C03",
-         "Positive definiteness after LAPACK rounding and positivity of the eigenvalue formula in IEEE arithmetic for |d| >~ 1e8 are NOT decided "
-         "(real arithmetic); bounded run-time checks only. is_spd of the assembled matrix is an uninterpreted predicate linked to the "
+         "original log(det(.)) code), per-eigenvalue positivity over the reals AND in IEEE binary64: the elementwise eigenvalue map of x_update_prox is "
+         "extracted from the source on every run and rho_scale*new_eigenvalue > 0 and finite is discharged by z3's FloatingPoint theory for every "
+         "double d in [-1e100, 1e100] and rho in [1e-100, 1e100] (one interval obligation per operation; DESIGN 2.12).", "4/C03",
+         "Positive definiteness of the ASSEMBLED matrix after LAPACK rounding (eigh, the product q diag(e) q^T) is NOT decided; bounded run-time "
+         "checks only. Apart from the binary64 obligations of x_update_prox, floats are reals. is_spd of the assembled matrix is an uninterpreted predicate linked to the "
          "per-eigenvalue facts by the assumed spectral calculus."),
  'C04': ("Proof for all T, W, N, K and any number of series: sequence contracts of pad/split/stack, result assembly in fit_stacked_data and both "
          "front ends (label count, exact margins, K MRFs, echoes), unequal series lengths via prefix sums.", "4/C04",
@@ -88,7 +90,9 @@ CLAIMS = {
          "bounded phase-trace stand-in (the contract of the BIC function speaks about the state it is given)."),
  'C17': ("Ratio and degrees-of-freedom clause proved; the centre clause of the property is REFUTED on the pinned tree and listed as a known finding "
          "(scalar centre), with the behaviour pinned so that further drift is reported.", "4/C17",
-         "Verified for runs in which every cluster is non-empty (as the property states)."),
+         "Verified for runs in which every cluster is non-empty (as the property states). That the stored cluster means are the means of the FINAL "
+         "members is a cross-phase fact outside the function's contract: the bounded check chi_members compares complete converged runs with the "
+         "definition and reports the second listed known finding (converged run ending with a cluster of fewer than 2 windows)."),
  'C18': ("Proof that the scalar forms (float, and after the fix int / NumPy scalars) give lambda*(W-b), that a matrix filled with one value gives the "
          "same class weight over the reals, that scalar and vector beta are broadcast to the same per-pair vector.", "4/C18",
          "Bit-identity of float summation orders is NOT claimed (real arithmetic). End-to-end equality of the forms on both front ends is a "
